@@ -1,0 +1,29 @@
+//go:build verif
+
+package index
+
+// Verification hooks for properties C12 (crash atomicity of Builder.Finish) and C17 (tombstones).
+// Not part of the normal build.
+
+import "github.com/sourcegraph/zoekt"
+
+// VerifBuilderState returns a copy of the builder's finishedShards map (temp name -> final name) and its
+// sticky buildError, the two pieces of state Finish works from.
+func VerifBuilderState(b *Builder) (finished map[string]string, buildErr error) {
+	b.errMu.Lock()
+	defer b.errMu.Unlock()
+	finished = make(map[string]string, len(b.finishedShards))
+	for k, v := range b.finishedShards {
+		finished[k] = v
+	}
+	return finished, b.buildError
+}
+
+// VerifSetTombstone is setTombstone (the common body of SetTombstone / UnsetTombstone).
+func VerifSetTombstone(shardPath string, repoID uint32, tombstone bool) error {
+	return setTombstone(shardPath, repoID, tombstone)
+}
+
+// VerifSetMockRepos sets the package's own test seam: when non-nil, setTombstone uses these repositories
+// instead of reading the shard's metadata.
+func VerifSetMockRepos(repos []*zoekt.Repository) { mockRepos = repos }
